@@ -9,7 +9,7 @@ request's OID octets occur nowhere in the datagram.  Four sessions cross the cou
 verif_set_salt hook): the salt after ff..ff is 00..00, still unique within the installation."""
 import json, random
 from vlib import trace, scripts, v3hist, tlc
-from vlib.report import Check, confirm_by_replay
+from vlib.report import Check, confirm_by_replay, timing_event
 from vlib.env import SEED
 from checks import c11
 
@@ -98,7 +98,7 @@ def run(tier):
             chk.violation(dict(kind="api-history", client=info["kind"], ev=ev["ev"], op=ev.get("op"), got=ev.get("exc") or "ok"),
                           "%s session configured with auth=%s priv=%s, calls %s with datagrams %s lost: %s (%s) %s - a request left that is not the configured privacy user's" %
                           (info["kind"], info["auth"], info["priv"], info["calls"], [k for k, p in enumerate(info["plan"]) if p == "drop"], ev["ev"], ev.get("op"), ev.get("exc") or ""),
-                          dict(info=info), confirm=confirm_by_replay(c13.replay, dict(info=info)))
+                          dict(info=info), confirm=(confirm_by_replay(c13.replay, dict(info=info)) if timing_event(ev) else None))
             continue
         cipher = "des" if "des" in info["cfgname"] else "aes"
         chk.violation(dict(cipher=cipher, ev=ev["ev"], got=ev.get("exc") or "sent"),
